@@ -648,6 +648,24 @@ fn deliver_and_check(
     let _ = watchdog;
     let panics = hooks::take_panics();
     if !panics.is_empty() {
+        // post-mortem for the witness: what the store and the status map say about every block
+        let post_mortem: Vec<String> = {
+            let mut seen = HashSet::new();
+            order
+                .iter()
+                .filter(|x| seen.insert(**x))
+                .map(|x| {
+                    let bh = packed::Byte32::from_slice(x).unwrap();
+                    let store = node.shared.store();
+                    format!(
+                        "{}#{}{} parent={} status={:?} header={} block={} ext_verified={:?}",
+                        hx(x), rc.get(x).number, if rc.get(x).chain_valid { "" } else { "!" }, hx(&rc.get(x).parent),
+                        node.shared.get_block_status(&bh), store.get_block_header(&bh).is_some(), store.get_block(&bh).is_some(),
+                        store.get_block_ext(&bh).map(|e| e.verified)
+                    )
+                })
+                .collect()
+        };
         for p in &panics {
             // a panicking node thread wedges block processing: the node can no longer reach
             // the heaviest chain for whatever arrives next
@@ -658,6 +676,8 @@ fn deliver_and_check(
                 json!({
                     "order_kind": format!("{kind:?}"), "threads": threads, "readers": readers, "delay_plan": with_plan,
                     "order": order.iter().map(|x| format!("{}#{}{}", hx(x), rc.get(x).number, if rc.get(x).chain_valid {""} else {"!"})).collect::<Vec<_>>(),
+                    "post_mortem": post_mortem,
+                    "callbacks": callbacks.lock().unwrap().iter().map(|c| format!("{} ok={:?} err={:?}", hx(&c.hash), c.ok, c.err.as_ref().map(|e| e.chars().take(70).collect::<String>()))).collect::<Vec<_>>(),
                 }),
             );
         }
